@@ -123,14 +123,14 @@ def close_cases():
     for code in (1000, 1001, 1011, 3000, 4999, 0, 65535):
         for rn, r in reasons:
             if r is None:
-                out.append(('close(%d)' % code, (code,), {}, ('close', code, b'goodbye')))
+                out.append(('close(%d)' % code, (code,), {}, ('close-default-reason', code)))
             else:
                 rb = r if isinstance(r, bytes) else r.encode('utf-8')
                 out.append(('close(%d, %s)' % (code, rn), (code, r), {}, ('close', code, rb)))
     for rn, r in too_long:
         out.append(('close(1000, %s)' % rn, (1000, r), {}, ('reject',)))
         out.append(('close(reason=%s)' % rn, (), {'reason': r}, ('reject',)))
-    out.append(('close()', (), {}, ('close', 1000, b'goodbye')))
+    out.append(('close()', (), {}, ('close-default-reason', None)))
     out.append(('close(reason=kw)', (), {'reason': 'kw'}, ('close', 1000, b'kw')))
     for name, code in [('65536', 65536), ('-1', -1), ('str', '1000'), ('float', 1000.5), ('2**40', 1 << 40), ('bytes', b'10')]:
         out.append(('close(code=%s)' % name, (code, 'x'), {}, ('reject',)))
@@ -286,6 +286,11 @@ class C03(F.Check):
                 payload = struct.pack('!H', exp[1]) + exp[2]
             elif exp[0] == 'close-empty':
                 op, want_rsv1, payload = CLOSE, False, None
+            elif exp[0] == 'close-default-reason':
+                # defaults are the library's choice: any valid Close payload whose code is the given one (or any code for close())
+                op, want_rsv1, payload = CLOSE, False, None
+                if f.opcode == CLOSE and len(f.payload) >= 2 and exp[1] is not None and f.payload[:2] != struct.pack('!H', exp[1]):
+                    problems.append(('payload-differs', '%s: Close frame carries code %r' % (label, f.payload[:2])))
             if f.opcode != op:
                 problems.append(('wrong-opcode', '%s wrote opcode %d' % (label, f.opcode), label))
                 continue
